@@ -22,8 +22,12 @@ REPO = os.environ.get("VERIF_REPO", "/repo")
 LEAN = os.path.join(VERIF, "lean")
 BUILD = os.path.join(VERIF, "build")
 OVERLAY_SRC = os.path.join(VERIF, "harness", "overlay")
-EVID = os.path.join(VERIF, "evidence")
-REPLAYS = os.path.join(EVID, "replays")
+# Evidence of the registered commands comes from /repo itself.  A run against a scratch tree
+# (VERIF_REPO=<worktree>: mutation / seeded-change experiments) writes its evidence file under
+# build/scratch-evidence instead, so it can never replace the evidence of the real tree; replay files
+# of such runs still go to evidence/replays (untracked) because the experiment tools read them there.
+EVID = os.path.join(VERIF, "evidence") if REPO == "/repo" else os.path.join(BUILD, "scratch-evidence")
+REPLAYS = os.path.join(VERIF, "evidence", "replays")
 KNOWN = os.path.join(VERIF, "findings", "known_findings.txt")
 
 ALLOWED_AXIOMS = {"propext", "Classical.choice", "Quot.sound"}
